@@ -298,8 +298,63 @@ def run_client_choice(c):
     _, _, body, headers = conn.requests[0]
     ce = headers.get('Content-Encoding')
     consistent = ([ce] if ce is not None else []) == used
-    return {'chosen': None if ce is None else ce.encode('latin-1').hex(), 'consistent': consistent, 'exc': exc,
-            'accept': headers.get('Accept-Encoding')}
+    tr = {'chosen': None if ce is None else ce.encode('latin-1').hex(), 'consistent': consistent, 'exc': exc,
+          'accept': headers.get('Accept-Encoding')}
+    tr['async'] = run_client_choice_async(c)
+    return tr
+
+
+def run_client_choice_async(c):
+    """the same choice in SoapClientAsync.async_post_message_to, with the aiohttp session replaced by a recorder"""
+    import asyncio
+    try:
+        from sdc11073.pysoap.soapclient_async import SoapClientAsync
+    except Exception as e:  # noqa: BLE001   aiohttp not installed
+        return {'skipped': f'{type(e).__name__}: {e}'[:120]}
+    sc = SoapClientAsync('127.0.0.1:9', 1, LoggerAdapter(logging.getLogger('c17a')), None, None, None,
+                         supported_encodings=[lat(x) for x in c['supported']],
+                         request_encodings=[lat(x) for x in c['request_encodings']], chunk_size=c.get('chunk', 0))
+    posted, used = [], []
+
+    class Resp:
+        status, reason = 200, 'OK'
+
+        async def text(self):
+            return ''
+
+        async def __aenter__(self):
+            return self
+
+        async def __aexit__(self, *a):
+            return False
+
+    class Session:
+        def post(self, path, data=None, headers=None):
+            posted.append((path, data, dict(headers)))
+            return Resp()
+
+    sc._http_connection = Session()
+    msg = types.SimpleNamespace(p_msg=None, serialize=lambda request_manipulator=None: b"<?xml version='1.0' encoding='utf-8'?><x/>")
+    real = CompressionHandler.__dict__['compress_payload'].__func__
+
+    def compress_payload(cls, algorithm, payload):
+        used.append(algorithm)
+        return b'Z' + payload
+    CompressionHandler.compress_payload = classmethod(compress_payload)
+    try:
+        asyncio.run(sc.async_post_message_to('/p', msg))
+        exc = None
+    except Exception as e:  # noqa: BLE001
+        exc = f'{type(e).__name__}: {e}'[:160]
+    finally:
+        CompressionHandler.compress_payload = classmethod(real)
+    if not posted:
+        return {'chosen': None, 'exc': exc, 'consistent': False}
+    headers = posted[0][2]
+    ce = headers.get('Content-Encoding')
+    return {'chosen': None if ce is None else ce.encode('latin-1').hex(), 'exc': exc,
+            'consistent': ([ce] if ce is not None else []) == used and
+            ((c.get('chunk', 0) > 0) == (headers.get('transfer-encoding') == 'chunked'))}
 
 
 # ------------------------------------------------------------------ end to end: SoapClient -> http.client -> handler -> back
